@@ -192,7 +192,8 @@ class UMNDirHandler(DirHandler):
 
             # Type.
             if line[0:5] == "Type=":
-                entry.settype(line[5])
+                if len(line) > 5:  # Don't crash on a Type= line without a type
+                    entry.settype(line[5])
                 # FIXME: handle if line[6] is + or ?
                 done["type"] = 1
             elif line[0:5] == "Name=":
